@@ -14,6 +14,9 @@
 (*   da,db result . (a0+a1), result . (b0+b1)                              *)
 (*   ha,hb -(intersectionError + 4 eps) * |a0+a1| resp. |b0+b1|            *)
 (*   eok   on-edge relation applicable; ea,eb = UpdateMinDistance(result,  *)
+(*         (for edges below 1e-140 rad, where UpdateMinDistance's squared  *)
+(*         cross product underflows: distance to the nearer endpoint; the  *)
+(*         tolerance is ABSOLUTE in every case, never relative to an edge) *)
 (*         edge); etol = chord(intersectionError) expanded by the          *)
 (*         documented minUpdateDistanceMaxError                            *)
 (*   st    intersectionStable accepted; sx = stableAngle(stable, exact);   *)
